@@ -14,22 +14,41 @@ from .sym import str_const_axioms
 TRANSCENDENTAL = ('sqrt', 'cos', 'sin', 'atan2', 'tan')
 
 
-def uses(formulas, names):
+_SYMS = {}      # ast id -> (formula kept alive, frozenset of declaration names in it)
+
+
+def symset(f):
+    """Names of all function/constant declarations occurring in f (memoised per formula:
+    the hypotheses of a path are shared by its obligations)."""
+    k = f.get_id()
+    hit = _SYMS.get(k)
+    if hit is not None and hit[0].eq(f):
+        return hit[1]
     seen = set()
     found = set()
-    stack = list(formulas)
+    stack = [f]
     while stack:
-        f = stack.pop()
-        if f.get_id() in seen:
+        g = stack.pop()
+        i = g.get_id()
+        if i in seen:
             continue
-        seen.add(f.get_id())
-        if z3.is_app(f):
-            n = f.decl().name()
-            if n in names:
-                found.add(n)
-            stack.extend(f.children())
-        elif z3.is_quantifier(f):
-            stack.append(f.body())
+        seen.add(i)
+        if z3.is_app(g):
+            found.add(g.decl().name())
+            stack.extend(g.children())
+        elif z3.is_quantifier(g):
+            stack.append(g.body())
+    r = frozenset(found)
+    if len(_SYMS) > 200000:
+        _SYMS.clear()
+    _SYMS[k] = (f, r)
+    return r
+
+
+def uses(formulas, names):
+    found = set()
+    for f in formulas:
+        found |= symset(f) & names
     return found
 
 
